@@ -60,21 +60,22 @@ class Obligation:
         return f"{self.func}:{self.kind}:{self.clause}"
 
 
-def new_solver(timeout_ms, relevancy=2):
+def new_solver(timeout_ms, relevancy=2, scope=None):
+    """scope: the formulas of the query; only the contract-module axioms that talk about symbols occurring in it are loaded (theory.extra_for)."""
     s = z3.Solver()
     s.set("auto_config", False)
     s.set("mbqi", False)
     s.set("timeout", timeout_ms)
     s.set("random_seed", 7)
     s.set("relevancy", relevancy)
-    for a in all_axioms().values():
+    for a in all_axioms(scope).values():
         s.add(a)
     return s
 
 
 def quick_unsat(hyps, timeout_ms=1500):
     """True only if hyps are definitely contradictory (used to prune infeasible paths)."""
-    s = new_solver(timeout_ms)
+    s = new_solver(timeout_ms, scope=hyps)
     s.add(hyps)
     return s.check() == z3.unsat
 
@@ -88,7 +89,7 @@ def discharge(hyps, goals, timeout_ms, portfolio=True):
 
     def solver(rel):
         if rel not in solvers:
-            solvers[rel] = new_solver(timeout_ms, rel)
+            solvers[rel] = new_solver(timeout_ms, rel, scope=list(hyps) + list(goals))
             solvers[rel].add(hyps)
         return solvers[rel]
     out = []
@@ -103,7 +104,8 @@ def discharge(hyps, goals, timeout_ms, portfolio=True):
             total += time.time() - t
             why = s.reason_unknown() if r == z3.unknown else ""
             s.pop()
-            last = (r, why)
+            if last is None or r != z3.unknown:
+                last = (r, why)      # the second configuration can only upgrade the verdict (a proof or a model); otherwise the first one stands
             if r != z3.unknown or "timeout" in why or "canceled" in why:
                 break
         r, why = last
